@@ -330,6 +330,17 @@ namespace Fit
 def keepIdx (n : Nat) (idx : List Nat) : List Nat :=
   (List.range n).filter fun i => !idx.contains i
 
+/-- the parameter ranges `[start, stop)` of consecutive linear objects starting at `off`. -/
+def rangesFrom {α : Type} (off : Nat) : List (Impl.Fit.LinObj α) → List (Nat × Nat)
+  | [] => []
+  | o :: os => (off, off + o.params) :: rangesFrom (off + o.params) os
+
+/-- the parameter indices belonging to linear objects without a regularization scheme, the first
+    object's parameters starting at `off`. -/
+def noRegFrom {α : Type} (off : Nat) : List (Impl.Fit.LinObj α) → List Nat
+  | [] => []
+  | o :: os => (if o.reg.isNone then List.range' off o.params else []) ++ noRegFrom (off + o.params) os
+
 /-- flat positions of the unmasked pixels, ascending. -/
 def unmaskedIdx (bits : List Bool) : List Nat :=
   (List.range bits.length).filter fun k => !bits.getD k true
